@@ -203,25 +203,40 @@ pub fn run(ctx: &mut Ctx) {
             // text-level reading of $badfilter (independent of the crate's rule ids): a line
             // `R,badfilter` cancels every line whose text is exactly R, and never matches itself
             // (the parser reads `||www.host` as `||host`, so those two spellings are one rule)
-            // ... and two spellings with the same pattern, parameter, other options and the same
-            // set of admitted request types have "the same matching options")
-            let canon = |l: &str| -> String {
+            // ... and option order does not matter). Which differently spelled type options make "the
+            // same rule" is not settled by the statement (the crate pairs by type mask), so a case in
+            // which some rule equals a $badfilter line up to its type options only is not judged.
+            let split = |l: &str| -> (String, Vec<String>, Vec<String>) {
                 let l = l.replace("||www.", "||");
                 match l.rsplit_once('$') {
                     Some((pat, opts)) => {
-                        let mut other: Vec<&str> = opts
-                            .split(',')
-                            .filter(|o| !matches!(o.trim_start_matches('~'), "document" | "xhr" | "xmlhttprequest" | "subdocument" | "script" | "image"))
-                            .collect();
+                        let is_type = |o: &str| matches!(o.trim_start_matches('~'), "document" | "xhr" | "xmlhttprequest" | "subdocument" | "script" | "image");
+                        let mut other: Vec<String> = opts.split(',').filter(|o| !is_type(o) && *o != "badfilter").map(|o| o.to_string()).collect();
+                        let mut types: Vec<String> = opts.split(',').filter(|o| is_type(o)).map(|o| o.to_string()).collect();
                         other.sort();
-                        let types: String = ["document", "subdocument", "xhr", "script", "image", "other"].iter().map(|t| if admits(&l, t) { '1' } else { '0' }).collect();
-                        format!("{}${}|{}", pat, other.join(","), types)
+                        types.sort();
+                        (format!("{}${}", pat, other.join(",")), types, vec![])
                     }
-                    None => l,
+                    None => (l, vec![], vec![]),
                 }
             };
-            let cancelled: Vec<String> = rules.iter().filter_map(|l| l.strip_suffix(",badfilter")).map(canon).collect();
-            let effective: Vec<String> = rules.iter().filter(|l| !l.ends_with(",badfilter") && !cancelled.contains(&canon(l))).cloned().collect();
+            let bad: Vec<(String, Vec<String>)> = rules.iter().filter(|l| l.ends_with(",badfilter")).map(|l| { let (a, b, _) = split(l); (a, b) }).collect();
+            let ambiguous = rules.iter().filter(|l| !l.ends_with(",badfilter")).any(|l| {
+                let (a, b, _) = split(l);
+                bad.iter().any(|(ba, bb)| *ba == a && *bb != b)
+            });
+            if ambiguous {
+                return vec![];
+            }
+            let effective: Vec<String> = rules
+                .iter()
+                .filter(|l| !l.ends_with(",badfilter"))
+                .filter(|l| {
+                    let (a, b, _) = split(l);
+                    !bad.iter().any(|(ba, bb)| *ba == a && *bb == b)
+                })
+                .cloned()
+                .collect();
             let opts = ParseOptions::default();
             let e = build_engine(&rules, opts, true, r.chance(1, 2));
             let mut scan = Scan::new(&effective, opts);
